@@ -97,7 +97,7 @@ def run(tier, seed):
                 nchan, coding, bf = F // 2, "pcm", ("01", "10")[k % 2]
                 # (sample_coding defaults to pcm: headers written without it - TIMIT's, for one - are well-formed)
                 hdr = sph_util.header(nchan, promised, 2, bf, "pcm", HEADER_SIZES[(k // 2) % len(HEADER_SIZES)],
-                                      omit=("sample_coding",) if k % 4 == 3 else (), lead=lead)
+                                      omit=("sample_coding",) if k % 4 == 3 else (), lead=lead, trail=("", " ", "  ")[k % 3])
                 used = raw[: frames * F].tobytes()
                 want = np.frombuffer(used, dtype="<i2" if bf == "01" else ">i2").astype(np.int16)
                 dtype_arg = None
@@ -108,7 +108,7 @@ def run(tier, seed):
                 nchan, coding = F, ("ulaw", "alaw")[k % 2]
                 # (sample_byte_format says nothing about one-byte samples and may be absent)
                 hdr = sph_util.header(nchan, promised, 1, "1", coding, HEADER_SIZES[(k // 2) % len(HEADER_SIZES)],
-                                      omit=("sample_byte_format",) if k % 4 == 1 else (), lead=lead)
+                                      omit=("sample_byte_format",) if k % 4 == 1 else (), lead=lead, trail=("", " ", "  ")[k % 3])
                 codes = raw[: frames * F]
                 dtype_arg = (np.uint8, np.int8)[(k // 5) % 2] if k % 5 == 0 else None  # a 1-byte dtype: the raw codes
                 want = codes.astype(dtype_arg) if dtype_arg is not None else (ulaw if coding == "ulaw" else alaw)[codes]
@@ -136,7 +136,16 @@ def run(tier, seed):
                         got = util.read_signal(p, dtype=dtype_arg)
                     else:
                         stream = io.BytesIO(blob) if k % 4 else io.BufferedReader(c11.NoSeek(blob))  # (k % 4 == 0: a pipe)
-                        got = util.read_signal(stream, force_as="sph", dtype=dtype_arg)
+                        if k % 8 == 6:
+                            # (... or a file object made from a descriptor: its `name` is a number)
+                            p = os.path.join(tmp, "fd.sph")
+                            with open(p, "wb") as f:
+                                f.write(blob)
+                            stream = os.fdopen(os.open(p, os.O_RDONLY), "rb")
+                        try:
+                            got = util.read_signal(stream, force_as="sph", dtype=dtype_arg)
+                        finally:
+                            stream.close()
                 except Exception as e:
                     run.violation({"kind": "sphere_read_raised", "case": q, "coding": coding, "channels": nchan, "error": repr(e)})
                     continue
